@@ -69,6 +69,7 @@ type histState struct {
 	scanner  *security.Scanner
 	reuse    int
 	failed   bool
+	acted    bool // the current step found something to act on
 	ref      *reference
 }
 
@@ -82,6 +83,8 @@ type reference struct {
 	treeNodes []map[reflect.Type]int
 	workNodes map[reflect.Type]int
 	recNodes  map[reflect.Type]int
+	recOK     bool // ParseWithRecovery returned at least one statement
+	tokOK     bool // Tokenize(tokenQuery) succeeded
 }
 
 func nodeCounts(x any, pooled map[reflect.Type]bool) map[reflect.Type]int {
@@ -111,6 +114,11 @@ func buildReference(pooled map[reflect.Type]bool) *reference {
 	stmts, _ := gosqlx.ParseWithRecovery(recoverQuery)
 	r.recovered = deepDump(stmts)
 	r.recNodes = nodeCounts(stmts, pooled)
+	r.recOK = len(stmts) > 0
+	tkz := tokenizer.GetTokenizer()
+	_, terr := tkz.Tokenize([]byte(tokenQuery))
+	r.tokOK = terr == nil
+	tokenizer.PutTokenizer(tkz)
 	r.workNodes = map[reflect.Type]int{}
 	for _, q := range []string{workQuery, badQuery1, badQuery2} {
 		// the failing statements are counted through their longest valid relatives: every node the
@@ -147,6 +155,7 @@ type op struct {
 }
 
 func (h *histState) hold(x *held) {
+	h.acted = true
 	x.snap = deepDump(x.val)
 	if x.kind == "tree" || x.kind == "stmts" {
 		x.ptrs = map[uintptr]reflect.Type{}
@@ -187,6 +196,10 @@ func (h *histState) releaseTree(j int) {
 	default:
 		return
 	}
+	if j < 0 && len(lt) < 3 {
+		return // "newest" is R0's or R1's tree: not a step of its own
+	}
+	h.acted = true
 	x := h.held[idx]
 	// from here on the harness never looks at x again
 	for a := range x.ptrs {
@@ -284,6 +297,7 @@ func buildOps() []op {
 		op{name: "TP", class: "PutTokenizer", run: func(h *histState) {
 			for i, x := range h.held {
 				if x.kind == "comments" {
+					h.acted = true
 					h.held = append(h.held[:i:i], h.held[i+1:]...)
 					tokenizer.PutTokenizer(x.owner) // the tokens stay held: Tokenize returned a slice of its own
 					return
@@ -398,6 +412,14 @@ func enumerateHistories(e *common.Enum, targets []*cleanTarget, pooled map[refle
 			runHistory(c, ops, seq, targets, pooled, lint, scanner, ref)
 		})
 	}
+	// A step that has nothing to act on (release with no tree held, Extract / Scan with no tree,
+	// PutTokenizer with no tokenizer, "release the newest" when the newest is also R0's or R1's tree)
+	// leaves every object untouched, so a history containing it behaves exactly like the shorter
+	// history without it - which is enumerated in its own right.  Such histories are not generated.
+	// The abstract bookkeeping used for that (which kinds of values are held) is re-validated against
+	// the real run: a step that turns out to have nothing to act on sets a cap.
+	var trees []byte // 't' = *AST from Parse, 's' = []Statement from ParseWithRecovery; oldest first
+	toks := 0
 	rec = func() {
 		if len(idx) > 0 {
 			run(idx)
@@ -406,9 +428,44 @@ func enumerateHistories(e *common.Enum, targets []*cleanTarget, pooled map[refle
 			return
 		}
 		for k := range ops {
-			idx = append(idx, k)
-			rec()
-			idx = idx[:len(idx)-1]
+			saveTrees, saveToks := append([]byte(nil), trees...), toks
+			ok := true
+			switch n := ops[k].name; {
+			case n[0] == 'P':
+				if ref.trees[k] == "" {
+					ok = false
+				}
+				trees = append(trees, 't')
+			case n == "W":
+				ok = ref.recOK
+				trees = append(trees, 's')
+			case n == "R0":
+				if ok = len(trees) >= 1; ok {
+					trees = trees[1:]
+				}
+			case n == "R1":
+				if ok = len(trees) >= 2; ok {
+					trees = append(append([]byte(nil), trees[0]), trees[2:]...)
+				}
+			case n == "Rn":
+				if ok = len(trees) >= 3; ok {
+					trees = trees[:len(trees)-1]
+				}
+			case n == "X" || n == "S":
+				ok = strings.IndexByte(string(trees), 't') >= 0
+			case n == "T":
+				ok = ref.tokOK
+				toks++
+			case n == "TP":
+				ok = toks >= 1
+				toks--
+			}
+			if ok {
+				idx = append(idx, k)
+				rec()
+				idx = idx[:len(idx)-1]
+			}
+			trees, toks = saveTrees, saveToks
 		}
 	}
 	rec()
@@ -420,7 +477,16 @@ func runHistory(c *common.Ctx, ops []op, seq []int, targets []*cleanTarget, pool
 	clearPools()
 	h := &histState{c: c, pooled: pooled, released: map[uintptr]bool{}, lint: lint, scanner: scanner, ref: ref}
 	for _, k := range seq {
+		h.acted = false
 		ops[k].run(h)
+		switch ops[k].name {
+		case "E1", "E2", "F", "FF", "V", "L":
+			h.acted = true // library-internal work, nothing for the harness to hold
+		}
+		if !h.acted && !c.Enum().Replaying() {
+			c.Outcome("model-diverged")
+			c.Enum().Cap("enabledness bookkeeping diverged from the run at step " + ops[k].name + " of " + c.Key)
+		}
 		c.Count("transitions", 1)
 		h.check(ops[k])
 		c.State(common.Hash64("hist|" + h.stateText()))
